@@ -166,7 +166,15 @@ def itemise(text):
         elif _RE_USE.match(low) and top in (None, "module", "program", "subroutine",
                                             "function"):
             m = _RE_USE.match(low)
-            items.append((sid, "use", m.group(1) + norm(m.group(2)), line))
+            rest = norm(m.group(2))
+            if rest.startswith(",only:"):
+                names = [n for n in split_top(rest[6:]) if n]
+                items.append((sid, "use", m.group(1) + ",only:" + ",".join(sorted(names)),
+                              line))
+                for n in names:
+                    items.append((sid + "/use " + m.group(1), "use-name", n, line))
+            else:
+                items.append((sid, "use", m.group(1) + rest, line))
         elif _RE_ACCESS.match(low) and top in ("module", "type") and \
                 (not _RE_ACCESS.match(low).group(2) or "::" in low or
                  re.match(r"^(public|private)\s+\w", low)):
